@@ -210,6 +210,7 @@ type runSpec struct {
 	hist   []step
 	label  string       // canonical | random-<n> | succession-<n> | composed-<name>
 	comp   *composition // composition pass: the option list replaces the one derived from cfg (cfg then only says which families are present)
+	tgt    *tgtSpec     // target pass (target.go): server URL form, path option and header-adding options; a raw front records the request lines
 }
 
 // stepRec is one executed step of a history.
@@ -265,6 +266,12 @@ type runResult struct {
 	libTouched int             // caller's header objects that no longer held what was handed over once the client(s) were built
 	inPlace    map[string]bool // canonical header names whose value slices the caller wrote in place
 	decoys     int             // other clients built from the shared base options
+
+	// target pass
+	front         []*frontRec // every request as it arrived at the raw fronting server
+	frontProblems []string
+	frontAddr     string
+	announced     []string // legacy: the endpoint event data the reference server sent
 }
 
 type rootsProv struct{ roots []mcp.Root }
@@ -318,6 +325,10 @@ func execute(sp runSpec) *runResult {
 	for _, p := range res.alts {
 		srv.alt[p] = true
 	}
+	var fr *front
+	if sp.tgt != nil {
+		srv.announce = func(sid string) string { return sp.tgt.announce(fr.addr, sid) }
+	}
 	if sp.retry == "refuse" {
 		if e := srv.reserve(); e != nil {
 			res.newErr = "reserve address: " + e.Error()
@@ -333,7 +344,19 @@ func execute(sp runSpec) *runResult {
 	if sp.retry == "veto" {
 		l.vetoToken = prefix + "attempt-1"
 	}
+	if sp.tgt != nil {
+		var e error
+		if fr, e = startFront(sp.client, srv.base()); e != nil {
+			res.newErr = "fronting server: " + e.Error()
+			srv.close()
+			return res
+		}
+		res.frontAddr = fr.addr
+	}
 	defer func() {
+		if fr != nil {
+			fr.close()
+		}
 		srv.close()
 		l.closeIdle()
 		if tr, ok := http.DefaultTransport.(*http.Transport); ok {
@@ -367,11 +390,16 @@ func execute(sp runSpec) *runResult {
 		opts = append(opts, mcp.WithServiceName(svcName), mcp.WithHTTPReqHandlerOption(&factoryOpt{Tag: sentinelTag}))
 	}
 	c = sp.cfg
+	serverURL := srv.base() + urlPath
+	if sp.tgt != nil {
+		opts = append(opts, sp.tgt.options(l)...)
+		serverURL = sp.tgt.serverURL(fr.addr)
+	}
 	newClient := func(o []mcp.ClientOption) (*mcp.Client, error) {
 		if sp.client == clStream {
-			return mcp.NewClient(srv.base()+urlPath, kit.ClientInfo, o...)
+			return mcp.NewClient(serverURL, kit.ClientInfo, o...)
 		}
-		return mcp.NewSSEClient(srv.base()+urlPath, kit.ClientInfo, o...)
+		return mcp.NewSSEClient(serverURL, kit.ClientInfo, o...)
 	}
 	// Shared base: another tenant's client is built from the same base option VALUES (plus its own header set)
 	// before and after the client under observation; neither ever sends anything.
@@ -645,6 +673,10 @@ func execute(sp runSpec) *runResult {
 	_ = cl.Close()
 	res.srv = srv.snapshot()
 	res.before, res.handler, res.factory = l.snapshot()
+	if fr != nil {
+		res.front, res.frontProblems = fr.snapshot()
+		res.announced = srv.announcements()
+	}
 	return res
 }
 
@@ -1576,14 +1608,23 @@ func main() {
 			j.run(execute(runSpec{client: client, cfg: cp.cfg(), comp: cp, hist: hist, label: "composed-" + cp.Name}))
 		}
 	}
+	// sixth pass: one configured target for every request kind - server URL forms x path option forms x
+	// header-adding options, request lines recorded by a raw fronting server (target.go)
+	tgtExtra := r.Pick(12, 150)
+	for _, client := range clients {
+		for _, ts := range targetList(client, r.Rand("target-"+client), tgtExtra) {
+			j.target(execute(runSpec{client: client, hist: tgtHistory(client), label: "target-" + ts.Name, tgt: ts}))
+		}
+	}
 	if fmt.Sprintf("%p", mcp.NewHTTPReqHandler) != fmt.Sprintf("%p", origFactory) {
 		r.Fatal("NewHTTPReqHandler was not restored")
 	}
 
 	// samples: a few recorded requests with their joined logs
-	for _, key := range []string{clStream + "|initialize", clStream + "|" + kRootsAnswer, clStream + "|" + kDelete, clLegacy + "|" + kConnect,
-		"comp|" + clLegacy + "|" + kConnect, "comp|" + clLegacy + "|" + kRootsAnswer, // composition pass (the evidence keeps six samples)
-		clStream + "|" + kGetStream, "retry|" + clLegacy + "|" + kConnect + "|200", "comp|" + clStream + "|" + kDelete} {
+	for _, key := range []string{clStream + "|initialize", clStream + "|" + kRootsAnswer, clLegacy + "|" + kConnect,
+		"comp|" + clLegacy + "|" + kConnect,  // composition pass (the evidence keeps six samples)
+		"tgt|" + clStream, "tgt|" + clLegacy, // target pass: request lines by kind of one configuration with URL query and custom path
+		clStream + "|" + kDelete, "comp|" + clLegacy + "|" + kRootsAnswer, clStream + "|" + kGetStream, "retry|" + clLegacy + "|" + kConnect + "|200", "comp|" + clStream + "|" + kDelete} {
 		if s, ok := j.samples[key]; ok {
 			r.Sample(s)
 		}
@@ -1642,6 +1683,26 @@ func main() {
 		"comp_factory_calls", "comp_runs_random"} {
 		r.Require(r.Counter(k) > 0, "composition pass: counter %s is zero", k)
 	}
+	// target pass: every request kind of both clients observed with a server URL carrying a query AND a custom
+	// path, with every query form, with every path form, with URL userinfo; every endpoint form announced
+	for _, cl := range clients {
+		for _, k := range tgtKinds(cl) {
+			r.Require(r.Counter("tgt_cells_observed_with_url_query_and_custom_path|"+cl+"|"+k) > 0, "target pass: request kind %s of the %s client was never observed with a server URL query and a custom path", k, cl)
+			r.Require(r.Counter("tgt_cells_observed_with_userinfo|"+cl+"|"+k) > 0, "target pass: request kind %s of the %s client was never observed with userinfo in the server URL", k, cl)
+			for _, q := range queryForms {
+				r.Require(r.Counter(fmt.Sprintf("tgt_cells_observed|%s|%s|query=%s", cl, k, q.class)) > 0, "target pass: request kind %s of the %s client was never observed with server URL query form %s", k, cl, q.class)
+			}
+			for _, p := range pathForms {
+				r.Require(r.Counter(fmt.Sprintf("tgt_cells_observed|%s|%s|path=%s", cl, k, p.class)) > 0, "target pass: request kind %s of the %s client was never observed with path option form %s", k, cl, p.class)
+			}
+		}
+	}
+	for _, e := range endpointForms {
+		r.Require(r.Counter("tgt_runs|legacy-endpoint="+e) > 0, "target pass: endpoint form %s was never announced", e)
+	}
+	if n := r.Counter("tgt_request_targets_not_in_origin_form"); n > 0 {
+		r.Note(fmt.Sprintf("observation outside the statement: %d requests of the Streamable client left with a request target that does not start with '/' (WithClientPath given without leading slash: every request path overwrites req.URL.Path after http.NewRequest, and URL.RequestURI does not insert the slash; a net/http server answers 400). All request kinds agree with each other, so nothing is reported; the legacy SSE client sets the path before building the URL string and sends '/'+path.", n))
+	}
 	if n := r.Counter("comp_in_place_write_visible_on_request"); n > 0 {
 		r.Note(fmt.Sprintf("observation outside the statement: WithHTTPHeaders keeps the caller's value slices (client.go: c.transportConfig.httpHeaders[k] = v, streamable_client.go withTransportHTTPHeaders: t.httpHeaders[k] = v): on %d requests a value the caller wrote IN PLACE into a slice it had handed over (h[k][i] = ...) after the client was built was sent instead of the configured one (%d requests did not show it). Mutations through the map / Header API (Set, Add, Del, new keys) never changed what was sent.",
 			n, r.Counter("comp_in_place_write_not_visible_on_request")))
@@ -1666,7 +1727,9 @@ func main() {
 		"Foreground requests must show the token of their own call, background requests the token of the latest started Initialize (the one whose handshake opened their stream), in the before-request log and in the handler log; a token of the failed attempt is reported as stale. Context tokens are unique per run, so a value leaking from an earlier, closed client of the same process would also be seen. "+
 		"Fifth pass, composed option lists (both clients): 46 named lists + seeded random ones (quick 16, thorough 120 per client) in which WithHTTPHeaders, WithHTTPBeforeRequest, WithHTTPReqHandler, WithClientPath, WithServiceName and WithHTTPReqHandlerOption are each given 0, 1, 2 or 3 times in different orders: header sets with disjoint keys, the same key in two or three sets, keys that differ only in case across sets and within one set, keys given in non-canonical form, multi-valued headers, empty values, keys without values, nil and empty sets between others, the same option value twice; two other clients built before and after from the same base option values plus their own header set; the caller changing its header objects after NewClient or after Initialize (Set / delete / append / new key through the map API; separately: writes into the value slices it handed over). History: canonical + a call vetoed by every before-request function and retried + a call answered 503 and retried + (Streamable) terminate, Close, Initialize, more traffic, terminate; every second random list runs a random history instead. "+
 		"Judged per request in that pass: a header name configured by one set only - exactly its values; a name configured by several sets (same canonical name) - at least the values of the last set naming it and nothing no set configured under it (merge or later-wins both accepted and counted); no header of another client, nothing the caller wrote after construction through the map API; the LAST before-request function exactly once (earlier ones at most once; counted), with the caller's context token; the LAST request handler, the LAST path (the server serves the earlier ones too, to tell 'earlier path used' from 'path ignored'), the factory receives the LAST service name and EVERY handler option; session id, veto and lost/duplicate rules as in the other passes. "+
-		"A case is distinct by (client, request kind, configuration bitmask), composed cases by (list name or multiplicity profile, client, request kind), vetoed cases by (client, vetoed request kind, bitmask), retry cases by (failure mode, client, request kind, bitmask), successions by (client, ordered pair of kinds, static headers y/n, before-request y/n; only steps during which a request reached the server); all judged requests count, conforming or not. "+
+		"Sixth pass, one target for every request kind (both clients; target.go): a PRNG-determined list - every server-URL query form {none, one parameter, several, escaped characters, empty value + valueless key, bare trailing '?'} x every WithClientPath form {not given, absolute, absolute with trailing slash, without leading slash, containing a literal '%', containing a space and non-ASCII, containing '?', empty string} once, plus seeded further draws (quick 12, thorough 150 per client); the URL path form {plain, trailing slash, prefix, prefix + trailing slash, escaped characters incl. %2F, no path, '/'}, userinfo (1 in 4), fragment (1 in 5), WithHTTPHeaders / a header-setting before-request function / a header-setting request handler (each 1 in 2) and the legacy endpoint form {path-absolute, relative, absolute URL, extra query parameters, escaped query, dot segments} are drawn. A raw TCP front records request line, Host and headers of every request and forwards it to the reference server under the served path (a misrouted request is still answered, so every kind stays observable). History: Initialize, (stream up), ListTools, notification, roots provider, server-issued roots/list and unknown request answered, CallTool, Streamable: Close + Initialize on the same client (second listening-stream GET), ListPrompts, roots/list answered, notification, TerminateSession. "+
+		"Judged per (configuration, request kind) cell: request target byte-equal to the one most request kinds of that client use (Streamable: all kinds incl. both GETs and DELETE; legacy: all POST kinds), same Host, same Authorization derived from URL userinfo (legacy connect GET vs POSTs only when the announced endpoint is relative), Host = configured authority, decoded path = configured path (path option forms with more than one reading - no leading slash, literal '%', '?' - accept every reading and are otherwise judged across kinds only), raw query = the configured URL's query; legacy POSTs: query = the announced endpoint's own query, path = RFC 3986 resolution (net/url) of the announced endpoint against the configured connect URL; every header configured through WithHTTPHeaders / before-request / request handler present with its configured value. A cell whose kind was not observed counts as not observed (tgt_cells_not_observed), never as held. "+
+		"A case is distinct by (client, request kind, configuration bitmask), target-pass cells by (client, kind, query form, path form, header options, endpoint form), composed cases by (list name or multiplicity profile, client, request kind), vetoed cases by (client, vetoed request kind, bitmask), retry cases by (failure mode, client, request kind, bitmask), successions by (client, ordered pair of kinds, static headers y/n, before-request y/n; only steps during which a request reached the server); all judged requests count, conforming or not. "+
 		"Non-vacuity: every succession history without veto must have executed all n*n ordered pairs (169 Streamable, 144 legacy), and every Streamable request kind must have been judged after a termination on the same client.",
 		[]string{
 			"there is no public option for a custom http.Client; the recording request handler substitutes its own client, so 'through the configured handler' also covers 'with the configured client'",
@@ -1685,6 +1748,7 @@ func main() {
 			"header names are compared in canonical form (HTTP header names are case-insensitive; the reference server is net/http); a configured header with an empty value must arrive with an empty value; a configured key without any value configures nothing",
 			"a caller writing IN PLACE into a value slice it handed to WithHTTPHeaders (no Header-API call does that) is not decided by the statement (Go APIs commonly retain caller slices): counted and reported as a note, not judged; mutations through the map / Header API are judged",
 			"violations of the composition pass carry the option family and its multiplicity as a fifth signature segment (e.g. |static-headers-x2), other symptoms there |composed-options",
+			"target pass: 'goes to the configured URL and path' is read as: authority, userinfo and query of the server URL string handed to the constructor, path = the WithClientPath value when one is given and non-empty, else the URL's path; the legacy POSTs go to the endpoint the server announced, resolved per RFC 3986 against the connect URL (own query kept, base query not inherited). Whether a trailing bare '?' or a fragment is sent is only judged across request kinds",
 			"client sockets are reset on close (SO_LINGER 0) to keep thousands of short-lived clients from exhausting ephemeral ports; the 'refuse' mode hangs up on accepted connections instead of unbinding the port",
 		})
 }
